@@ -500,7 +500,7 @@ fn req_new(a: &Args) -> Args {
 /// flush_fault <variant, fail_at>: the transport's poll_flush fails (the place where buffering transports report failed writes) at its
 /// fail_at-th call; the handler does not drop the writer at once but goes on: variant 0 writes a note through ANOTHER StreamWriter,
 /// 1 writes again through the SAME writer, 2 reads its input (a management record is waiting, its reply needs the output lock),
-/// 3 returns the error at once.  Harness-side assertion: the connection task ends (no hang on the output lock, no panic);
+/// 3 returns the error at once, 4 reads ALL its input with the writers alive (the management reply must reach the transport).  Harness-side assertion: the connection task ends (no hang on the output lock, no panic);
 /// observation [1].  The scripted world of conn_run has no flush faults (the model's flush never fails), hence this separate mode.
 fn flush_fault(a: &Args) -> Args {
     struct FlushFail {
@@ -556,6 +556,9 @@ fn flush_fault(a: &Args) -> Args {
                     0 => { let _ = errw.write_all(b"flush failed").await; },
                     1 => { let _ = out.write_all(b"again").await; },
                     2 => { let mut buf = [0u8; 16]; let _ = req.read(&mut buf).await; },
+                    // reads ALL its input with both writers still alive: the management query behind the first stdin record must be
+                    // answered on the way (C08: "once the running handler reads input")
+                    4 => { let mut v = Vec::new(); let _ = req.read_to_end(&mut v).await; assert_eq!(v, b"abc", "stdin content"); },
                     _ => {},
                 }
                 drop(out);
@@ -598,6 +601,11 @@ fn flush_fault(a: &Args) -> Args {
             }
             assert!(flag.0.load(Ordering::SeqCst), "after a failed flush the connection task is suspended and nobody will wake it (it waits for the output lock)");
             assert!(polls < 10_000, "the connection task spins after a failed flush");
+        }
+        if variant == 4 {
+            let l = log.lock().expect("log");
+            let needle: &[u8] = b"FCGI_MPXS_CONNS";
+            assert!(l.windows(needle.len()).any(|w| w == needle), "the handler read its input to the end but the management query was never answered");
         }
     }));
     if r.is_err() { vec![vec![PANIC]] } else { vec![vec![1]] }
